@@ -18,6 +18,21 @@ CHECKS = {
         note="Trusted: sqlglot + my SQL semantics (self-checked per template against real DuckDB on random concrete tables on every run), z3, AST shapes. Reals stand for DOUBLE; "
              "round/ln/exp/... are uninterpreted symbols shared with the reference. More than 3 datapoints per dataset is outside.",
         ref="3 C01", engine="sqlsmt"),
+    "C02": dict(technique='bounded SMT (z3) equivalence between the SQL regenerated from the real transpiler and a VTL reference interpreter over symbolic tables; models replayed through run()', engine="sqlsmt", ref="3 C02", note='Trusted: sqlglot + vt/sqlsmt SQL semantics (self-checked per template against real DuckDB on random concrete tables on every run), z3, hand-built AST shapes. Reals stand for DOUBLE.',
+        text="Every single clause (filter, calc, keep, drop, rename, sub), every well-typed chain of two (thorough: three) and clauses applied to a join result: the emitted SQL is "
+             "evaluated symbolically over all input tables of 2 (thorough 3) datapoints and z3 decides equality with the reference (filter keeps TRUE rows only; calc adds/overwrites the "
+             "named components; keep/drop/rename/sub touch only the listed components; sub fixes and removes identifiers). unsat = holds within the bound."),
+    "C03": dict(technique='bounded SMT (z3) equivalence between the SQL regenerated from the real transpiler and a VTL reference interpreter over symbolic tables; models replayed through run()', engine="sqlsmt", ref="3 C03", note='Trusted: sqlglot + vt/sqlsmt SQL semantics (self-checked per template against real DuckDB on random concrete tables on every run), z3, hand-built AST shapes. Reals stand for DOUBLE.' + " var/stddev are shared symbols over (count, sum, sum of squares); median is defined by counting with witnesses.",
+        text="sum avg count min max median var_pop var_samp (thorough + stddev_pop stddev_samp) with group by / group except / no grouping / aggr clause / having: the emitted SQL over all input "
+             "tables of 3 (thorough 4) datapoints with nullable measures equals the reference (one datapoint per distinct group, aggregate of the non-null values, having keeps TRUE groups). "
+             "Empty counts and count() over datapoints with null measures are don't-care values (the group must still exist); ungrouped aggregates of an empty operand are outside."),
+    "C04": dict(technique='bounded SMT (z3) equivalence between the SQL regenerated from the real transpiler and a VTL reference interpreter over symbolic tables; models replayed through run()', engine="sqlsmt", ref="3 C04", note='Trusted: sqlglot + vt/sqlsmt SQL semantics (self-checked per template against real DuckDB on random concrete tables on every run), z3, hand-built AST shapes. Reals stand for DOUBLE.',
+        text="inner/left/full/cross joins of 2-3 datasets with equal, nested and partially shared identifiers, with/without using and aliases, and trailing filter/calc/keep/drop/rename/aggr "
+             "bodies: emitted SQL over all input tables of 2 (thorough 3) datapoints equals the relational join of the reference (keys once, alias#comp disambiguation, nulls on the missing side, "
+             "coalesced keys for full joins)."),
+    "C05": dict(technique='bounded SMT (z3) equivalence between the SQL regenerated from the real transpiler and a VTL reference interpreter over symbolic tables; models replayed through run()', engine="sqlsmt", ref="3 C05", note='Trusted: sqlglot + vt/sqlsmt SQL semantics (self-checked per template against real DuckDB on random concrete tables on every run), z3, hand-built AST shapes. Reals stand for DOUBLE.' + " UNION ALL is modelled as concatenation in branch order and ROW_NUMBER() OVER () as the position in it.",
+        text="union/intersect (2-4 operands) and setdiff/symdiff over all operand tables of 2-3 datapoints with symbolic key overlaps and conflicting measures: the emitted SQL "
+             "(UNION ALL + ROW_NUMBER + QUALIFY, SEMI/ANTI joins, CTEs) equals the keyed-set reference (union keeps the first operand holding a key; measures from the retained datapoint)."),
     "C11": dict(
         technique="CrossHair symbolic execution of the real promotion functions and operator classes over symbolic type indices",
         text="Every obligation is a CrossHair condition over symbolic operand-type indices (all 9x9 pairs, all 9 unary types) calling the "
